@@ -253,7 +253,7 @@ def nontrivial(prog):
 
 
 def run(ctx: Ctx) -> Outcome:
-    n = ctx.n(300, 4000)
+    n = ctx.n(600, 4000)
     out, results = engcheck.run_programs(ctx, n, dict(GEN, n_stmts=ctx.n(8, 14)), "oracle", nontrivial)
     out.rule = ("random programs; for a random non-constant terminal tensor: backward() vs sum().backward(), backward(g) vs "
                 "(L*g).sum().backward() for broadcastable g, a non-broadcastable g must be rejected with no gradient written, "
